@@ -195,6 +195,61 @@ Definition run_hazard_stats (a : list Z) : list Z :=
   | _ => [-1]
   end.
 
+(* diagnostics for a rejected BLOCKDEP: the pair (previous possibly-unfinished kernel op A, op B = the
+   i-th EOp) and, per (f, b) with f + b < k, whether the job-level test finds a clash *)
+Definition flat_box (b : box) : list Z := [b_y0 b; b_y1 b; b_x0 b; b_x1 b; b_c0 b; b_c1 b].
+Definition flat_view (v : fmview) : list Z :=
+  [fv_region v; fv_b0 v; fv_b1 v; fv_b2 v; fv_b3 v; fv_h0 v; fv_h1 v; fv_w0 v; fv_sx v; fv_sy v; fv_sc v; fv_elem v;
+   (if fv_b16 v then 1 else 0); fv_h v; fv_w v; fv_d v].
+
+Fixpoint find_pair (prev : option kop) (evs : list event) (i : Z) (target : Z) : option (kop * kop) :=
+  match evs with
+  | [] => None
+  | EOp code param r :: t =>
+      if code =? cmd0_NPU_OP_DMA_START then find_pair prev t (i + 1) target
+      else if i =? target then (match prev with Some A => Some (A, (code, param, r)) | None => None end)
+      else find_pair (Some (code, param, r)) t (i + 1) target
+  | EWait code n :: t =>
+      if (code =? cmd0_NPU_OP_KERNEL_WAIT) && (n <=? 0) then find_pair None t i target else find_pair prev t i target
+  | _ :: t => find_pair prev t i target
+  end.
+
+(* CMD blockdep_explain = 10 : ncores lut_addr shram_usable max_dma max_kern op_index words
+   -> [1; codeA; codeB; k; nblocksA; njobsB; slicesB; op_clash; blkA h w d; blkB h w d; ofm view A (16); ifm view B (16);
+       uses_ifm2 B; ifm2 view B (16); B's pad top left bottom right, stride y x, dilated kernel h w, upscale; then per (f, b): f b clash  A-block box (6)  B ofm block box (6)  B ifm box (6)  B ifm2 box (6)] *)
+Definition run_blockdep_explain (a : list Z) : list Z :=
+  match a with
+  | nc :: la :: ss :: md :: mk :: idx :: ws =>
+      let hw := {| hw_ncores := nc; hw_lut_addr := la; hw_shram_size := ss |} in
+      match run_stream ws with
+      | Some evs =>
+          match find_pair None evs 0 idx with
+          | Some (A, B) =>
+              let '(ca, pa, ra) := A in
+              let '(cb, pb, rb) := B in
+              let k := blockdep_of B in
+              let na := nblocks ra in
+              let sl := ifm_slices cb rb in
+              [1; ca; cb; k; na; njobs cb rb; sl; (if op_clash hw A B then 1 else 0);
+               blk_h ra; blk_w ra; blk_d ra; blk_h rb; blk_w rb; blk_d rb] ++
+              flat_view (ofm_view ra) ++ flat_view (ifm_view cb rb) ++
+              [(if uses_ifm2 cb pb rb then 1 else 0)] ++ flat_view (ifm2_view rb) ++
+              [r0 rb cmd0_NPU_SET_IFM_PAD_TOP; r0 rb cmd0_NPU_SET_IFM_PAD_LEFT; r0 rb cmd0_NPU_SET_IFM_PAD_BOTTOM;
+               r0 rb cmd0_NPU_SET_IFM_PAD_RIGHT; k_stride_y (r0 rb cmd0_NPU_SET_KERNEL_STRIDE); k_stride_x (r0 rb cmd0_NPU_SET_KERNEL_STRIDE);
+               r0 rb cmd0_NPU_SET_KERNEL_HEIGHT_M1 + 1; r0 rb cmd0_NPU_SET_KERNEL_WIDTH_M1 + 1; r0 rb cmd0_NPU_SET_IFM_UPSCALE] ++
+              flat_map (fun f =>
+                flat_map (fun b =>
+                  let ob := ofm_block rb (f / sl) in
+                  [f; b; (if job_clash A B f b then 1 else 0)] ++ flat_box (ofm_block ra (na - 1 - b)) ++ flat_box ob ++
+                  flat_box (ifm_box cb rb ob (f mod sl)) ++ flat_box (ifm2_box rb ob))
+                (upto (Z.to_nat (k - f)))) (upto (Z.to_nat k))
+          | None => [2]
+          end
+      | None => [0]
+      end
+  | _ => [-1]
+  end.
+
 Definition run (cmd : Z) (a : list Z) : list Z :=
   if cmd =? 1 then run_waits_cmd a
   else if cmd =? 2 then run_rs_intersects a
@@ -205,4 +260,5 @@ Definition run (cmd : Z) (a : list Z) : list Z :=
   else if cmd =? 7 then run_calc_blockdep a
   else if cmd =? 8 then run_hazard_stats a
   else if cmd =? 9 then run_op_accesses a
+  else if cmd =? 10 then run_blockdep_explain a
   else [-1].
